@@ -4,7 +4,7 @@ EXTENDS LoDSM
 It(a, b) == [k \in {"a", "b"} |-> IF k = "a" THEN a ELSE b]
 InitSt == [items |-> <<It(0, None), It(1, 1), [a |-> 0]>>, hp |-> <<1, 1, 1>>,
            lists |-> <<NewList(<<1, 2, 3>>, {}, {})>>]
-Preds == {[f |-> "a_eq", v |-> 0], [f |-> "b_notnone"]}
+Preds == {[f |-> "a_eq", v |-> 0], [f |-> "b_notnone"], [f |-> "b_value"]}
 Fns == {[f |-> "const", v |-> 1], [f |-> "from", k |-> "a"]}
 UnaryArgs ==
        {[op |-> "filter", p |-> p] : p \in Preds} \cup {[op |-> "filter_out", p |-> p] : p \in Preds}
